@@ -30,7 +30,7 @@ EXPLANATION = (
     "shrinking in _recycleWorker, the coordinator quits only when _shouldQuitCoordinator and _busyCount == 0; (e) LockWorker.do "
     "releases the lock and clears local.working on every exit after acquire; (f) ThreadPool reports each outcome once "
     "(BaseException handler, single onResult call then reset), stop() quits the team before joining every tracked thread, and "
-    "the worker limit test is busy + idle >= currentLimit(). Not decided: real thread schedules, behaviour of user callbacks."
+    "the worker limit test is busy + idle >= currentLimit(). Not decided: real thread schedules, behaviour of user callbacks. "
     "Every anchor function is also checked to be entered on every call (no memoising/wrapping decorator, duplicate definition or rebinding). "
 )
 ASSUMPTIONS = [
